@@ -260,6 +260,10 @@ RecErr ==
                        /\ (row.h = NA \/ row.h = exec[k][i].h)
                        /\ (row.out_h = NA \/ row.out_h = exec[k][i].h_out)
                        /\ (row.rngi = NA \/ exec[k][i].rngi = NA \/ row.rngi = exec[k][i].rngi))
+                ELSE IF k = T.sup /\ i = supss.seq /\ row.seq = i
+                     \* the supervisor's step that run_until_supervisor has PREPARED (its step state was handed to the caller of reset()/step()) but
+                     \* that has not been executed: rex has already written what the step will use; what it produces is still unwritten
+                     THEN ~(row.eps = T.eps /\ row.start = supss.start /\ (row.h = NA \/ row.h = hcur[k]) /\ (row.out_h = NA \/ row.out_h = -1))
                 ELSE ~(row.seq = -1)}
   IN IF bad = {} THEN NoErr
      ELSE LET kr == CHOOSE x \in bad : TRUE IN
